@@ -74,6 +74,10 @@ impl OverlayFS {
         if let Some(index) = separator {
             let parent_path = &path[..index];
             if self.exists(parent_path)? {
+                // a file (of whatever layer) cannot have children: do not shadow it by a directory
+                if !self.read_path(parent_path)?.is_dir()? {
+                    return Err(VfsErrorKind::Other("Parent path is not a directory".into()).into());
+                }
                 self.write_path(parent_path)?.create_dir_all()?;
                 return Ok(());
             }
